@@ -619,10 +619,20 @@ func runC12StateDB(c *vx.Ctx) {
 	seen := map[string]bool{}
 	states := map[string]bool{}
 	var idx int64
-	share := 0.30 / float64(len(plans))
+	nBig := 0
+	for _, pl := range plans {
+		if !pl.TxSplit {
+			nBig++
+		}
+	}
 	for _, pl := range plans {
 		stop := false
-		expiredA := c12Slice(c, share) // every plan gets its own share of the statedb time
+		// every plan gets its own share of the statedb time; the transaction-split plan is small
+		share := 0.28 / float64(nBig)
+		if pl.TxSplit {
+			share = 0.02
+		}
+		expiredA := c12Slice(c, share)
 		// prefixes of this plan, most telling first: those ending in a transaction boundary
 		// (finalised / pending objects, cleared journal) before the plain ones
 		var prefixes [][]c12Op
